@@ -516,6 +516,25 @@ func c12Registered(c *run.C) {
 		}
 		c.Observe("invalid_options_refused", 1)
 	}
+	switch c.Idx % 8 {
+	case 1:
+		// ONE option value kept for the life of the process, followed by a
+		// second Folders option in the same call ...
+		if _, ok := foldAgainstModel(c, t, v, regConfig, false, optAB, gotype.Folders(foldRegC, foldRegD, foldRegE, foldRegF, foldRegG)); !ok {
+			return
+		}
+		c.Observe("registered_folds_with_a_reused_option_value", 1)
+		c.Nontrivial(gen.Mix(125, gen.HashString(valueString(v))))
+		return
+	case 5:
+		// ... and alone: it must still stand for foldRegA and foldRegB only
+		if _, ok := foldAgainstModel(c, t, v, regConfigAB(), false, optAB); !ok {
+			return
+		}
+		c.Observe("registered_folds_with_a_reused_option_value", 1)
+		c.Nontrivial(gen.Mix(126, gen.HashString(valueString(v))))
+		return
+	}
 	if c.Idx%3 == 2 {
 		// the same types WITHOUT the option, interleaved in the same process:
 		// what an iterator with registered folders compiled for a type must
@@ -705,7 +724,7 @@ func c12Zoo(c *run.C) {
 var c12Suites = []*run.Suite{
 	{Name: "generated", N: tierN(150000, 5000000), Case: c12Generated, Require: []string{"folds_equal_to_model", "type:tag-omitempty", "type:tag-inline", "type:tag-omit", "type:tag-name", "type:ptr", "type:interface", "type:map", "type:slice"}},
 	{Name: "sweep", N: tierN(len(c12FieldKinds)*len(c12Tags)*4*3, len(c12FieldKinds)*len(c12Tags)*4*3*10), Case: c12Sweep, Require: []string{"sweep_folds_equal_to_model"}},
-	{Name: "registered", N: tierN(6000, 120000), Case: c12Registered, Require: []string{"registered_folds_equal_to_model", "registered_types_folded_without_option"}},
+	{Name: "registered", N: tierN(6000, 120000), Case: c12Registered, Require: []string{"registered_folds_equal_to_model", "registered_types_folded_without_option", "registered_folds_with_a_reused_option_value"}},
 	{Name: "registered-builtin", N: tierN(3000, 60000), Case: c12RegisteredBuiltin, Require: []string{"registered_builtin_folds_equal_to_model"}},
 	{Name: "zoo", N: tierN(20000, 400000), Case: c12Zoo, Require: []string{"zoo_folds_equal_to_model"}},
 }
@@ -796,4 +815,16 @@ func foldShared(c *run.C, v reflect.Value, sink structform.Visitor) (err error, 
 		sharedIt = nil // an iterator is not demanded to survive an error or a panic
 	}
 	return err, ok
+}
+
+// optAB is one FoldOption value used again and again (an application-wide
+// "common folders" option).
+var optAB = gotype.Folders(foldRegA, foldRegB)
+
+func regConfigAB() *model.Config {
+	cfg := &model.Config{Registered: map[reflect.Type]func(reflect.Value) val.V{}}
+	for _, t := range []reflect.Type{reflect.TypeOf(regA{}), reflect.TypeOf(&regA{}), reflect.TypeOf(regB{}), reflect.TypeOf(&regB{})} {
+		cfg.Registered[t] = regConfig.Registered[t]
+	}
+	return cfg
 }
